@@ -161,6 +161,16 @@ func Index(opts Options, bopts index.Options) error {
 		}
 	}
 
+	if builder == nil {
+		// The archive holds no regular file (it is empty, or has directories or
+		// links only): nothing was added, so the builder was never created.
+		// Write the empty index instead of crashing.
+		builder, err = index.NewBuilder(bopts)
+		if err != nil {
+			return err
+		}
+	}
+
 	return builder.Finish()
 }
 
